@@ -5,6 +5,8 @@ import sys
 PROPERTY_MODULES = {
     "C01": ["contracts.c01"],
     "C10": ["contracts.c10"],
+    "C19": ["contracts.c19"],
+    "C16": ["contracts.c16"],
 }
 
 
